@@ -44,9 +44,9 @@ def start_session(exe, seed, cfg):
         s.op(f"server 127.0.0.50:3478 stun {cfg['stunsrv']}")
         stun = " stunsrv=127.0.0.50:3478"
     s.op(f"new A ctrl={cfg['ctrlA']} compat=0 opts={optsA} rc={cfg['rc']} rto={cfg['rto']} "
-         f"keepalive={cfg.get('keepalive', 0)} addrs=" + ",".join(f"127.0.0.{i + 1}" for i in range(cfg["naA"])) + stun)
+         f"keepalive={cfg.get('keepalive', 0)} addrs=" + ",".join(f"127.0.0.{i + 1}" for i in range(cfg["naA"])) + stun + cfg.get("newargs", ""))
     s.op(f"new B ctrl={cfg['ctrlB']} compat=0 opts={optsB} rc={cfg['rc']} rto={cfg['rto']} "
-         f"keepalive={cfg.get('keepalive', 0)} addrs=" + ",".join(f"127.0.1.{i + 1}" for i in range(cfg["naB"])) + stun)
+         f"keepalive={cfg.get('keepalive', 0)} addrs=" + ",".join(f"127.0.1.{i + 1}" for i in range(cfg["naB"])) + stun + cfg.get("newargs", ""))
     s.op(f"stream A {cfg['ncomp']}")
     s.op(f"stream B {cfg['ncomp']}")
     s.op("attach A 1")
